@@ -94,7 +94,7 @@ def run_fault_positions(ctx, rec):
                     for k in range(nops):
                         op = base["net_ops"][k][0]
                         for exc in {"connect_tcp": ["ConnectError", "ConnectTimeout"], "connect_unix_socket": ["ConnectError"],
-                                    "start_tls": ["ConnectError", "ConnectTimeout"], "read": ["ReadError", "ReadTimeout"],
+                                    "start_tls": ["ConnectError", "ConnectTimeout"], "read": ["ReadError", "ReadTimeout", "EOF"],
                                     "write": ["WriteError", "WriteTimeout"]}[op]:
                             res = sweep.run_case(rt, kind, shape, ("fault", k, exc), yield_in_ops=False, retries=retries)
                             rec.evals += 1
